@@ -31,6 +31,14 @@
   (r) a function / method that the reference tree does not have, called from exactly one place as `h(a, b)` / `self.h(a, b)` (statement, or
       `x = …` with a single trailing `return e`), whose parameters are bound to plain names, is inlined at that call (undoes "extract method")
 
+  (s) a renamed parameter (same position, same number of parameters as in the reference tree) gets its reference name back, in the body and in
+      keyword arguments of calls to that function (only when capture-free and when the simple name of the function has one signature in the tree)
+
+  (t) a renamed function / method (one definition of the reference tree is missing from its module / class, one new definition with a matching body is
+      there, and the new name is unknown to the reference tree) gets its reference name back, at the definition and at every reference in the tree
+  (u) a renamed instance attribute (same: one attribute of the class is missing, one unknown attribute with the same occurrence profile over the
+      methods of the class is there) gets its reference name back everywhere in the tree
+
 (c) is a pure renaming: it is applied only when it is capture-free (the reference name is not otherwise used in the function).
 The rules therefore see the same program whether a developer renamed `index` to `pos`, rewrote `x += 1` as `x = x + 1` or swapped
 the arms of an `if`. Line numbers are untouched.
@@ -527,6 +535,151 @@ def _orient_len_tests(fn: ast.FunctionDef, ref_len: List[str]) -> None:
                 ast.fix_missing_locations(n.test)
 
 
+def align_params(trees: Dict[str, ast.Module]) -> None:
+    """step (s): undo parameter renames, tree-wide (definitions first, then keyword arguments at the call sites)."""
+    ref = _ref()
+    renames: Dict[str, List[Dict[str, str]]] = {}
+    defs_by_name: Dict[str, int] = {}
+    for rel, t in trees.items():
+        def visit(body, prefix):
+            for st in body:
+                if isinstance(st, ast.ClassDef):
+                    visit(st.body, prefix + st.name + ".")
+                elif isinstance(st, ast.FunctionDef):
+                    simple = prefix.rstrip(".").split(".")[-1] if st.name == "__init__" and prefix else st.name
+                    defs_by_name[simple] = defs_by_name.get(simple, 0) + 1
+                    want = ref.get(f"{rel}::{prefix}{st.name}::params")
+                    if want is None:
+                        continue
+                    a = st.args
+                    cur = [x.arg for x in a.posonlyargs + a.args]
+                    if len(cur) != len(want) or cur == want or a.vararg or a.kwarg:
+                        continue
+                    mapping = {c: w for c, w in zip(cur, want) if c != w}
+                    names = {x.id for x in ast.walk(st) if isinstance(x, ast.Name)} | set(cur)
+                    if any(w in names for w in mapping.values()) or len(set(mapping.values())) != len(mapping):
+                        continue
+                    if any(isinstance(x, (ast.FunctionDef, ast.Lambda, ast.ClassDef)) for b in st.body for x in ast.walk(b)):
+                        continue
+                    for x in a.posonlyargs + a.args:
+                        if x.arg in mapping:
+                            x.arg = mapping[x.arg]
+                    for x in ast.walk(st):
+                        if isinstance(x, ast.Name) and x.id in mapping:
+                            x.id = mapping[x.id]
+                    renames.setdefault(simple, []).append(mapping)
+        visit(t.body, "")
+    for t in trees.values():
+        for n in ast.walk(t):
+            if isinstance(n, ast.Call) and n.keywords:
+                name = n.func.id if isinstance(n.func, ast.Name) else (n.func.attr if isinstance(n.func, ast.Attribute) else None)
+                if name in renames and len(renames[name]) == 1 and defs_by_name.get(name) == 1:
+                    mp = renames[name][0]
+                    for k in n.keywords:
+                        if k.arg in mp:
+                            k.arg = mp[k.arg]
+
+
+def _shape(fn: ast.FunctionDef) -> str:
+    """dump of a function body with every identifier blanked: equal for a function and its renamed copy"""
+    import copy
+    f = copy.deepcopy(fn)
+    for x in ast.walk(f):
+        if isinstance(x, ast.Name):
+            x.id = "_"
+        elif isinstance(x, ast.arg):
+            x.arg = "_"
+            x.annotation = None
+        elif isinstance(x, ast.Attribute):
+            x.attr = "_"
+        elif isinstance(x, ast.Constant) and isinstance(x.value, str):
+            x.value = ""
+        elif isinstance(x, ast.keyword):
+            x.arg = "_" if x.arg else None
+    return ast.dump(ast.Module(body=f.body, type_ignores=[]))
+
+
+def _class_attr_profile(cls: ast.ClassDef) -> Dict[str, List]:
+    prof: Dict[str, Dict[str, int]] = {}
+    for st in cls.body:
+        if isinstance(st, ast.FunctionDef):
+            for x in ast.walk(st):
+                if isinstance(x, ast.Attribute) and isinstance(x.value, ast.Name) and x.value.id == "self":
+                    prof.setdefault(x.attr, {})
+                    prof[x.attr][st.name] = prof[x.attr].get(st.name, 0) + 1
+    return {a: sorted(m.items()) for a, m in prof.items()}
+
+
+def align_names(trees: Dict[str, ast.Module]) -> None:
+    """steps (t) and (u): undo renames of functions / methods and of instance attributes, tree-wide."""
+    ref = _ref()
+    ref_funcs = set(ref.get("::function-names", []))
+    ref_attrs = set(ref.get("::attribute-names", []))
+    if not ref_funcs:
+        return
+    all_idents = set()
+    all_attrs = set()
+    for t in trees.values():
+        for x in ast.walk(t):
+            if isinstance(x, ast.Name):
+                all_idents.add(x.id)
+            elif isinstance(x, ast.Attribute):
+                all_idents.add(x.attr)
+                all_attrs.add(x.attr)
+            elif isinstance(x, (ast.FunctionDef, ast.ClassDef)):
+                all_idents.add(x.name)
+    fn_map: Dict[str, str] = {}
+    attr_map: Dict[str, str] = {}
+    for rel, t in trees.items():
+        scopes = [("", t.body)] + [(st.name + ".", st.body) for st in t.body if isinstance(st, ast.ClassDef)]
+        for prefix, body in scopes:
+            want = ref.get(f"{rel}::{prefix}::defs")
+            if want is None:
+                continue
+            cur = {st.name: st for st in body if isinstance(st, ast.FunctionDef)}
+            missing = [n for n in want if n not in cur]
+            new = [n for n in cur if n not in want]
+            for mname in missing:
+                cands = [n for n in new if n not in ref_funcs and n not in ref_attrs and _shape(cur[n]) == want[mname]]
+                if len(cands) == 1 and mname not in all_idents and cands[0] not in fn_map:
+                    fn_map[cands[0]] = mname
+                    new.remove(cands[0])
+        for st in t.body:
+            if isinstance(st, ast.ClassDef):
+                wantp = ref.get(f"{rel}::{st.name}::attrs")
+                if wantp is None:
+                    continue
+                curp = _class_attr_profile(st)
+                # method names inside profiles may themselves be renamed: map them first
+                inv = {v: k for k, v in fn_map.items()}
+                def norm(p):
+                    return sorted((fn_map.get(m, m), c) for m, c in p)
+                missing = [a for a in wantp if a not in curp]
+                new = [a for a in curp if a not in wantp]
+                for a in missing:
+                    cands = [n for n in new if n not in ref_attrs and n not in ref_funcs and norm(curp[n]) == [tuple(x) for x in wantp[a]]]
+                    if len(cands) == 1 and a not in all_attrs and attr_map.get(cands[0], a) == a:
+                        attr_map[cands[0]] = a
+                        new.remove(cands[0])
+    if not fn_map and not attr_map:
+        return
+    for t in trees.values():
+        for x in ast.walk(t):
+            if isinstance(x, ast.FunctionDef) and x.name in fn_map:
+                x.name = fn_map[x.name]
+            elif isinstance(x, ast.Name) and x.id in fn_map:
+                x.id = fn_map[x.id]
+            elif isinstance(x, ast.Attribute):
+                if x.attr in fn_map:
+                    x.attr = fn_map[x.attr]
+                elif x.attr in attr_map:
+                    x.attr = attr_map[x.attr]
+            elif isinstance(x, ast.alias) and x.name in fn_map:
+                x.name = fn_map[x.name]
+            elif isinstance(x, ast.keyword) and x.arg in attr_map:
+                pass
+
+
 def signature_table(trees: Dict[str, ast.Module]) -> Dict[str, List[str]]:
     """simple name -> parameter names (without self) when every repository function / constructor of that name has the same signature."""
     cands: Dict[str, List[List[str]]] = {}
@@ -795,6 +948,26 @@ def build_reference(root: str) -> Dict[str, List[str]]:
             if fn.endswith(".py"):
                 raws[os.path.relpath(os.path.join(dirpath, fn), root)] = ast.parse(open(os.path.join(dirpath, fn)).read())
     sigs = signature_table(raws)
+    fnames, anames = set(), set()
+    for rel, t in raws.items():
+        scopes = [("", t.body)] + [(st.name + ".", st.body) for st in t.body if isinstance(st, ast.ClassDef)]
+        for prefix, body in scopes:
+            d = {st.name: _shape(st) for st in body if isinstance(st, ast.FunctionDef)}
+            if d:
+                out[f"{rel}::{prefix}::defs"] = d
+                fnames |= set(d)
+        for st in t.body:
+            if isinstance(st, ast.ClassDef):
+                pr = _class_attr_profile(st)
+                out[f"{rel}::{st.name}::attrs"] = pr
+                anames |= set(pr)
+        for x in ast.walk(t):
+            if isinstance(x, ast.Attribute):
+                anames.add(x.attr)
+            elif isinstance(x, ast.ClassDef):
+                fnames.add(x.name)
+    out["::function-names"] = sorted(fnames)
+    out["::attribute-names"] = sorted(anames)
     for dirpath, dirnames, filenames in os.walk(pk):
         dirnames[:] = sorted(d for d in dirnames if d != "__pycache__")
         for fn in sorted(filenames):
@@ -815,6 +988,8 @@ def build_reference(root: str) -> Dict[str, List[str]]:
                     elif isinstance(st, ast.FunctionDef):
                         names = binding_order(st)
                         out[f"{rel}::{prefix}{st.name}"] = names
+                        if not (st.args.vararg or st.args.kwarg):
+                            out[f"{rel}::{prefix}{st.name}::params"] = [x.arg for x in st.args.posonlyargs + st.args.args]
                         cmps = sorted({_cmp_key(n.left, n.comparators[0]) for n in ast.walk(st)
                                        if isinstance(n, ast.Compare) and len(n.ops) == 1 and isinstance(n.ops[0], (ast.Eq, ast.NotEq))})
                         if cmps:
